@@ -194,47 +194,59 @@ Definition append_slice (st : store) (l off len cap : nat) (vs : list value) : o
     | None => None
     end.
 
+(* invokeAddOperator, "+" on two non-slice operands: the kind tower string > float > int *)
+Definition add_scalars (lv rv : value) (s2 : rstate) : outcome :=
+  let st := r_st s2 in
+  match precedence_of_kinds (kind_of lv) (kind_of rv) with
+  | KString =>
+      tri_bind (to_string_st orc st lv) (fun a =>
+      tri_bind (to_string_st orc st rv) (fun b => ret (VStr (a ++ b)%string) s2) (unsupported "tostring"))
+        (unsupported "tostring")
+  | KFloat =>
+      with_float (to_float64 orc lv) (fun a =>
+      with_float (to_float64 orc rv) (fun b => ret (VFloat (fadd a b)) s2))
+  | _ =>
+      with_int (to_int64 lv) (fun a =>
+      with_int (to_int64 rv) (fun b => ret (VInt (add64 a b)) s2))
+  end.
+
+Definition sub_values (lv rv : value) (s2 : rstate) : outcome :=
+  match lv, rv with
+  | VFloat _, _ | _, VFloat _ =>
+      with_float (to_float64 orc lv) (fun a =>
+      with_float (to_float64 orc rv) (fun b => ret (VFloat (fsub a b)) s2))
+  | _, _ =>
+      with_int (to_int64 lv) (fun a =>
+      with_int (to_int64 rv) (fun b => ret (VInt (sub64 a b)) s2))
+  end.
+
 (* invokeAddOperator *)
 Definition invoke_add (l : expr) (op : string) (r : expr) (s : rstate) : outcome :=
   eval_operand l s (fun lv s1 =>
   eval_operand r s1 (fun rv s2 =>
     let st := r_st s2 in
     if String.eqb op "+" then
-      match lv, rv with
-      | VSlice l1 o1 n1 c1, VSlice l2 o2 n2 _ =>
-          match append_slice st l1 o1 n1 c1 (slice_elems st l2 o2 n2) with
-          | Some (st', sl) => ret sl (set_st s2 st')
-          | None => unsupported "append beyond modelled size classes"
-          end
-      | VSlice l1 o1 n1 c1, _ =>
-          match append_value st l1 o1 n1 c1 rv with
-          | Some (st', sl) => ret sl (set_st s2 st')
-          | None => unsupported "append beyond modelled size classes"
-          end
-      | _, VSlice _ _ _ _ => raise "invalid type conversion" s2
-      | _, _ =>
-          match precedence_of_kinds (kind_of lv) (kind_of rv) with
-          | KString =>
-              tri_bind (to_string orc lv) (fun a =>
-              tri_bind (to_string orc rv) (fun b => ret (VStr (a ++ b)%string) s2) (unsupported "tostring"))
-                (unsupported "tostring")
-          | KFloat =>
-              with_float (to_float64 orc lv) (fun a =>
-              with_float (to_float64 orc rv) (fun b => ret (VFloat (fadd a b)) s2))
+      match lv with
+      | VSlice l1 o1 n1 c1 =>
+          match rv with
+          | VSlice l2 o2 n2 _ =>
+              match append_slice st l1 o1 n1 c1 (slice_elems st l2 o2 n2) with
+              | Some (st', sl) => ret sl (set_st s2 st')
+              | None => unsupported "append beyond modelled size classes"
+              end
           | _ =>
-              with_int (to_int64 lv) (fun a =>
-              with_int (to_int64 rv) (fun b => ret (VInt (add64 a b)) s2))
+              match append_value st l1 o1 n1 c1 rv with
+              | Some (st', sl) => ret sl (set_st s2 st')
+              | None => unsupported "append beyond modelled size classes"
+              end
+          end
+      | _ =>
+          match rv with
+          | VSlice _ _ _ _ => raise "invalid type conversion" s2
+          | _ => add_scalars lv rv s2
           end
       end
-    else if String.eqb op "-" then
-      match lv, rv with
-      | VFloat _, _ | _, VFloat _ =>
-          with_float (to_float64 orc lv) (fun a =>
-          with_float (to_float64 orc rv) (fun b => ret (VFloat (fsub a b)) s2))
-      | _, _ =>
-          with_int (to_int64 lv) (fun a =>
-          with_int (to_int64 rv) (fun b => ret (VInt (sub64 a b)) s2))
-      end
+    else if String.eqb op "-" then sub_values lv rv s2
     else if String.eqb op "|" then
       with_int (to_int64 lv) (fun a =>
       with_int (to_int64 rv) (fun b => ret (VInt (or64 a b)) s2))
@@ -243,23 +255,27 @@ Definition invoke_add (l : expr) (op : string) (r : expr) (s : rstate) : outcome
 Fixpoint repeat_string (n : nat) (x : string) : string :=
   match n with 0 => EmptyString | S k => (x ++ repeat_string k x)%string end.
 
+(* invokeMultiplyOperator, "*" *)
+Definition mul_values (lv rv : value) (s2 : rstate) : outcome :=
+  match lv, rv with
+  | VStr x, VInt n =>
+      if (n <? 0)%Z then raise "negative repeat count" s2
+      else if (Z.of_nat (String.length x) * n >? 1048576)%Z then unsupported "string repeat beyond 1 MiB"
+      else ret (VStr (repeat_string (Z.to_nat n) x)) s2
+  | VFloat _, _ | _, VFloat _ =>
+      with_float (to_float64 orc lv) (fun a =>
+      with_float (to_float64 orc rv) (fun b => ret (VFloat (fmul a b)) s2))
+  | _, _ =>
+      with_int (to_int64 lv) (fun a => with_int (to_int64 rv) (fun b => ret (VInt (mul64 a b)) s2))
+  end.
+
 (* invokeMultiplyOperator *)
 Definition invoke_mul (l : expr) (op : string) (r : expr) (s : rstate) : outcome :=
   eval_operand l s (fun lv s1 =>
   eval_operand r s1 (fun rv s2 =>
     let ints (f : Z -> Z -> Z) : outcome :=
       with_int (to_int64 lv) (fun a => with_int (to_int64 rv) (fun b => ret (VInt (f a b)) s2)) in
-    if String.eqb op "*" then
-      match lv, rv with
-      | VStr x, VInt n =>
-          if (n <? 0)%Z then raise "negative repeat count" s2
-          else if (Z.of_nat (String.length x) * n >? 1048576)%Z then unsupported "string repeat beyond 1 MiB"
-          else ret (VStr (repeat_string (Z.to_nat n) x)) s2
-      | VFloat _, _ | _, VFloat _ =>
-          with_float (to_float64 orc lv) (fun a =>
-          with_float (to_float64 orc rv) (fun b => ret (VFloat (fmul a b)) s2))
-      | _, _ => ints mul64
-      end
+    if String.eqb op "*" then mul_values lv rv s2
     else if String.eqb op "/" then
       with_float (to_float64 orc lv) (fun a =>
       with_float (to_float64 orc rv) (fun b => ret (VFloat (fdiv a b)) s2))
@@ -1390,7 +1406,7 @@ Definition run_single (so : option stmt) (s : rstate) : outcome :=
     | SThrow e =>
         do s1 <- rec (CExpr e) s0;
         (* newStringError returns nil for the empty message: `throw ""` raises nothing *)
-        tri_bind (to_string orc (deref (r_st s1) (r_rv s1)))
+        tri_bind (to_string_st orc (r_st s1) (deref (r_st s1) (r_rv s1)))
                  (fun m => if String.eqb m "" then Ok s1 else Err (EVm m) s1) (unsupported "throw of container")
     | SModule name body => run_module name body s0
     | SSwitch e cases default => run_switch e cases default s0
